@@ -30,6 +30,11 @@ class ToolError(Exception):
     pass
 
 
+class HarnessPanic(Exception):
+    """A panic escaped from the code under test while a driver ran it (harness exit code 3)."""
+    pass
+
+
 def log(*a):
     print("[verif]", *a, flush=True)
 
@@ -88,6 +93,9 @@ def run_harness(args, timeout=3600, env_extra=None, stdout_path=None):
             out = p.stdout
     except subprocess.TimeoutExpired:
         raise ToolError("harness timeout: %s" % " ".join(args))
+    if p.returncode == 3:
+        lines = [x for x in (p.stderr or "").splitlines() if x.startswith("PANIC ")]
+        raise HarnessPanic((lines[-1] if lines else "PANIC (no message)") + " | args: " + " ".join(args))
     if p.returncode != 0:
         sys.stdout.write((p.stderr or "")[-4000:])
         raise ToolError("harness failed rc=%d: %s" % (p.returncode, " ".join(args)))
